@@ -5,8 +5,10 @@ package bind
 import (
 	"database/sql"
 	"database/sql/driver"
+	"encoding/json"
 	"fmt"
 	"math/rand"
+	"reflect"
 	"regexp"
 	"strconv"
 	"strings"
@@ -51,6 +53,9 @@ type Val struct {
 	Str bool `json:"str"`
 	U8  bool `json:"u8,omitempty"`
 }
+
+// Blob is a named byte-slice type without Valuer.
+type Blob []byte
 
 // Role is a named type whose underlying type is uint8: a []Role is NOT a byte string.
 type Role uint8
@@ -123,6 +128,9 @@ func idOf(x interface{}) string {
 			return "null"
 		}
 		return idOf(*t)
+	}
+	if rv := reflect.ValueOf(x); rv.Kind() == reflect.Slice && rv.Type().Elem().Kind() == reflect.Uint8 && rv.Type().Elem() == reflect.TypeOf(uint8(0)) {
+		return idOf(string(rv.Bytes()))
 	}
 	return fmt.Sprintf("other:%T:%v", x, x)
 }
@@ -272,6 +280,12 @@ func argGo(a Arg, base *gorm.DB) interface{} {
 		return sql.NullString{}
 	case "bytes":
 		return []byte(a.V.Go().(string))
+	case "nbytes":
+		// a named byte-slice type without Valuer (json.RawMessage, net.IP, type Blob []byte): ONE value
+		if a.V.K%2 == 0 {
+			return json.RawMessage(a.V.Go().(string))
+		}
+		return Blob(a.V.Go().(string))
 	case "nil":
 		return nil
 	case "slice":
@@ -681,7 +695,7 @@ func (g *gen) hole(depth int) Hole {
 		h.Arg = Arg{K: "nil"}
 	case c == 8 && str:
 		v := g.val(true)
-		h.Arg = Arg{K: "bytes", V: &v}
+		h.Arg = Arg{K: []string{"bytes", "nbytes"}[g.r.Intn(2)], V: &v}
 	case c < 12:
 		n := g.r.Intn(4)
 		a := Arg{K: "slice"}
